@@ -117,7 +117,7 @@ CStep(c, iv, o) ==
       okblock  == (c.kind = "block") => ~sinkfire
   IN
   /\ q'     = IF Len(q2) <= c.cap THEN q2 ELSE q1   \* saturate (Bounded is then already false)
-  /\ pend'  = IF sinkfire THEN 0 ELSE pend1
+  /\ pend'  = IF sinkfire THEN 0 ELSE Min(pend1, Len(Ftok) + 1)   \* saturate (okorder is then already false)
   /\ acc'   = IF sinkfire /\ c.kind = "up"
               THEN (IF Closes(c, acc, tok) THEN <<>> ELSE Append(acc, tok))
               ELSE acc
